@@ -132,12 +132,16 @@ def build_inputs(tier):
     for name, s in (files if tier != "quick" else rr.sample(files, 10)):
         for st in corpus.split_statements(s, 4000) if tier == "quick" else [s]:
             cases.append(("stdlib", st))
+    for s in ["\u05e2\u05b4\u05d1 = 1\n", "x\u0301 = 2\n", "a\ufe0f = 3\n", "\u00e9\u0300t\u00e9 = caf\u00e9\n"]:
+        cases.append(("kf-neighbourhood", s))  # identifiers with combining marks / variation selectors, and plain non-ASCII ones
     seen = set()
     return [c for c in cases if not (c[1] in seen or seen.add(c[1]))]
 
 
 def classify(src, o):
     g, w = o.get("got"), o.get("want")
+    if w and g and w[0] == "NAME" and g[0] == "NAME" and w[1].startswith(g[1]) and len(g[1]) < len(w[1]) and not re.match(r"\w", w[1][len(g[1])]):
+        return "KF-C09-identifier-combining-marks"
     if w and w[0] == "OP" and w[1] == "<>":
         return "KF-C09-flufl-noteq"
     if w and g and w[0] == "NUMBER" and g[0] == "NUMBER" and re.fullmatch(r"0(?:_?[0-9])*", w[1]) and set(w[1]) - set("0_") and re.fullmatch(r"0(?:_?0)*", g[1]) and w[1].startswith(g[1]):
